@@ -424,6 +424,14 @@ def render_pptx(doc, *, images=None, opts=None) -> bytes:
                 f'<p:txBody><a:bodyPr/><a:lstStyle/><a:p>{_a_runs(u["notes"], st)}</a:p></p:txBody></p:sp></p:spTree></p:cSld></p:notes>')
             parts[f"ppt/notesSlides/_rels/notesSlide{pn}.xml.rels"] = _rels([("rId1", RT + "slide", f"../slides/slide{pn}.xml", False)])
             over.append(f'<Override PartName="/ppt/notesSlides/notesSlide{pn}.xml" ContentType="application/vnd.openxmlformats-officedocument.presentationml.notesSlide+xml"/>')
+        if i == 0 and doc.get("comments"):
+            # PowerPoint 2007-2016 comment part: ppt/comments/comment<N>.xml + commentAuthors.xml
+            cms = "".join(f'<p:cm authorId="0" dt="2024-03-01T12:00:00.000" idx="{ci + 1}"><p:pos x="10" y="10"/><p:text>{escape(" ".join(x["tok"] for x in c if x["k"] == "t"))}</p:text></p:cm>'
+                          for ci, c in enumerate(doc["comments"]))
+            parts[f"ppt/comments/comment{pn}.xml"] = f'<?xml version="1.0" encoding="UTF-8" standalone="yes"?><p:cmLst {_P_NS}>{cms}</p:cmLst>'
+            parts["ppt/commentAuthors.xml"] = f'<?xml version="1.0" encoding="UTF-8" standalone="yes"?><p:cmAuthorLst {_P_NS}><p:cmAuthor id="0" name="vf" initials="v" lastIdx="9" clrIdx="0"/></p:cmAuthorLst>'
+            rid("comments", f"../comments/comment{pn}.xml")
+            over.append(f'<Override PartName="/ppt/comments/comment{pn}.xml" ContentType="application/vnd.openxmlformats-officedocument.presentationml.comments+xml"/>')
         parts[f"ppt/slides/slide{pn}.xml"] = slide
         parts[f"ppt/slides/_rels/slide{pn}.xml.rels"] = _rels(rels)
         over.append(f'<Override PartName="/ppt/slides/slide{pn}.xml" ContentType="application/vnd.openxmlformats-officedocument.presentationml.slide+xml"/>')
